@@ -6,9 +6,9 @@ props = [json.loads(l) for l in open(os.path.join(here, "properties.jsonl"))]
 
 E1 = "E1-codec"; E2 = "E2-component"; E3 = "E3-simulation"; E4 = "E4-real-threads"
 CHECKS = {
- "C01": dict(engine=E1, design="6/C01",
-   technique="property-based differential testing of the decoder against an independent reference decoder over random, mutated, grammar-generated hostile and exhaustively enumerated datagrams; CPU-time and allocation watchdogs",
-   text="Exploration: ~1.7e6 (quick) / ~3e7 (thorough) generated datagrams plus an exhaustively enumerated small-alphabet sub-space; each decoded under a panic/CPU/allocation watchdog and compared record-by-record with an independent RFC 1035 decoder. Sampling, not proof: it shows absence of panics, hangs and invented records on what was generated.",
+ "C01": dict(engine=E1+"+"+E3, design="6/C01",
+   technique="property-based differential testing of the decoder against an independent reference decoder over random, mutated, grammar-generated hostile and exhaustively enumerated datagrams; CPU-time and allocation watchdogs; plus generated damaged datagrams through the simulated daemon's receive path, judged against the decoder's verdict on exactly those bytes",
+   text="Exploration: ~1.7e6 (quick) / ~3e7 (thorough) generated datagrams plus an exhaustively enumerated small-alphabet sub-space; each decoded under a panic/CPU/allocation watchdog and compared record-by-record with an independent RFC 1035 decoder; 6e3 / 1e5 damaged answers (cut short, lying counts / lengths, trailing bytes) delivered to a simulated daemon: a rejected datagram has no effect, an accepted one reports only addresses it holds. Sampling, not proof: it shows absence of panics, hangs and invented records on what was generated.",
    note="Trusted: harness/src/refdns.rs (reference decoder), the delegation-only facade src/verif/{codec,parser_view}.rs. Hang = >2 s CPU on one datagram; allocation cap 64 MiB."),
  "C02": dict(engine=E1, design="6/C02",
    technique="property-based round-trip testing: generated message specs are encoded by the crate and read back by an independent RFC 1035 parser and by the crate's own decoder; omissions must be justified by size",
@@ -138,11 +138,11 @@ m = {
    {"name": E1, "path": "/verif/harness/src/props/{c01,c02,c16}.rs + /verif/fuzz", "serves_properties": ["C01","C02","C16","C15"], "kind_free_text": "proptest generators + exhaustive enumeration + libFuzzer targets against the wire codec through the verif::codec facade, oracle = independent reference codec refdns"},
    {"name": E2, "path": "/verif/harness/src/props", "serves_properties": ["C08","C10","C11","C20"], "kind_free_text": "proptest / enumeration over records, cache and tiebreaking under a thread-local virtual clock"},
    {"name": "E4 real threads", "path": "/verif/harness/src/props/c14.rs", "serves_properties": ["C14"], "kind_free_text": "an unhooked daemon on real sockets (private port) with 2-4 client threads issuing generated calls while another thread shuts it down; watchdog for blocked calls"},
-   {"name": E3, "path": "/verif/harness/src/sim", "serves_properties": ["C03","C04","C05","C06","C07","C08","C09","C10","C11","C12","C13","C14","C15","C16","C17","C18","C19","C20"], "kind_free_text": "the real daemon thread in lock-step under a virtual clock, simulated interfaces, captured egress and injected ingress; generated histories, per-property monitors"},
+   {"name": E3, "path": "/verif/harness/src/sim", "serves_properties": ["C01","C03","C04","C05","C06","C07","C08","C09","C10","C11","C12","C13","C14","C15","C16","C17","C18","C19","C20"], "kind_free_text": "the real daemon thread in lock-step under a virtual clock, simulated interfaces, captured egress and injected ingress; generated histories, per-property monitors"},
  ],
  "checks": [check_entry(p["id"], CHECKS[p["id"]]) for p in props if p["id"] in CHECKS],
  "not_applicable": [{"property_id": p["id"], "reason": NOT_BUILT} for p in props if p["id"] not in CHECKS],
- "notes": "All checks: exit 0 held / 1 VIOLATION / 2 inconclusive. VERIF_SEED selects the PRNG stream. known_findings.json lists recorded defects (status known) and the repaired ones (status fixed, suppressing nothing); fix: commits in /repo repair the others. DESIGN.md section 11 is the build report (defects repaired, known findings, false alarms corrected, the 60 seeded changes and which check catches which). VERIF_NO_FUZZ=1 skips the libFuzzer part of the thorough tier.",
+ "notes": "All checks: exit 0 held / 1 VIOLATION / 2 inconclusive. VERIF_SEED selects the PRNG stream. known_findings.json lists recorded defects (status known) and the repaired ones (status fixed, suppressing nothing); fix: commits in /repo repair the others. DESIGN.md section 11 is the build report (defects repaired, known findings, false alarms corrected, the 80 seeded changes and which check catches which). VERIF_NO_FUZZ=1 skips the libFuzzer part of the thorough tier.",
 }
 json.dump(m, open(os.path.join(here, "MANIFEST.json"), "w"), indent=1)
 print("checks:", [c["property_id"] for c in m["checks"]])
